@@ -561,6 +561,40 @@ pub fn run() {
             frontier = next;
         }
     }
+    // long histories: 16 fixed histories of 1 500 events each (the event list walked with 16 strides); the
+    // node checks run after every 100th event and at the end - a machine's life is longer than the BFS depth
+    let mut long_events = 0u64;
+    {
+        let traces: Vec<usize> = (0..16).collect();
+        let counts = mc::par_map(&traces, |&t| {
+            let mut n = Node { m: Machine::new(MachineConfig::default()), hist: vec![], clean: true };
+            let stride = 2 * t + 1;
+            let mut cnt = 0u64;
+            for i in 0..1500usize {
+                let e = EVS[(i * stride + i / 23 + t) % EVS.len()];
+                n.hist.push(e);
+                if matches!(e, Ev::Interrupt | Ev::Load(1) | Ev::Load(2) | Ev::Load(4)) {
+                    n.clean = false;
+                }
+                mc::watch::progress(|| format!("long history {} event #{} (walk of the event list with stride {})", t, i, stride));
+                if let Err(p) = mc::catch(|| apply(&mut n.m, e, &pr)) {
+                    let mut g = found.lock().unwrap();
+                    let en = g.entry(format!("panic/{}", p.file())).or_default();
+                    en.0 += 1;
+                    en.1.push((hist_line(&n.hist, "none"), format!("long history {}: panic at {}: {}", t, p.site(), p.msg)));
+                    break;
+                }
+                cnt += 1;
+                if i % 100 == 99 {
+                    node_check(&n);
+                }
+            }
+            cnt
+        });
+        long_events += counts.iter().sum::<u64>();
+    }
+    mc::watch::idle();
+    ctx.set("long_history_events", long_events);
     let found = found.into_inner().unwrap();
     for (k, (n, cases)) in &found {
         for (l, w) in cases.iter().take(3) {
